@@ -27,7 +27,7 @@ type ClScenario struct {
 	FailOnce    []string         `json:"failOnce"` // the factory fails for these ids the first time it is asked, then works
 	NeverReady  []string         `json:"neverReady"`
 	SlowStop    []string         `json:"slowStop"`
-	End         string           `json:"end"` // stop | cancel | close
+	End         string           `json:"end"`      // stop | cancel | close
 	EndAfter    int              `json:"endAfter"` // end the run after this many pushes (>= len(maps): after all)
 }
 
@@ -76,8 +76,8 @@ func (s *clServer) Stop() {
 	<-s.done
 	s.rec.add("SR%d", s.inst)
 }
-func (s *clServer) IsRunning() bool   { return s.state.Load().(string) == "Running" }
-func (s *clServer) GetState() string  { return s.state.Load().(string) }
+func (s *clServer) IsRunning() bool  { return s.state.Load().(string) == "Running" }
+func (s *clServer) GetState() string { return s.state.Load().(string) }
 func (s *clServer) GetStateChan(ctx context.Context) <-chan string {
 	ch := make(chan string, 1)
 	ch <- s.GetState()
